@@ -154,9 +154,6 @@ func genFuncR(p *Program, w *World, fn *ssa.Function, con *Contract, excepts map
 			e.top.targets = append(e.top.targets, ts...)
 		}
 		for _, m := range con.Modifies {
-			if m.Kind == "ghost" || m.Kind == "ghostelem" {
-				continue
-			}
 			ts, all := e.resolveMod(env, m)
 			if all {
 				e.top.everything = true
@@ -270,6 +267,10 @@ func genFuncR(p *Program, w *World, fn *ssa.Function, con *Contract, excepts map
 				}
 			}
 			for _, en := range con.Ensures {
+				if ref != nil && con.Assumed[en.ID] {
+					e.Assumptions["assumed-clause:"+con.Key+"."+en.ID] = true
+					continue
+				}
 				if ref != nil && con.Derived[en.ID] != "" {
 					e.Assumptions["derived-clause:"+en.ID+" follows by lemma "+con.Derived[en.ID]] = true
 					continue
